@@ -99,21 +99,25 @@ def run_case(cs):
     elif r.exit != 0:
         cs.violation("info-nonzero-with-history", {"kind": "info-exit", "exit": r.exit}, {**ctx, "out": r.text[-300:]})
     else:
-        blocks = {}
+        # headings of nested histories: "Child History at <path>:" at the start of a line, followed by generation lines (a
+        # path may itself contain line feeds, so the heading is taken up to the last ":" before the next generation line)
+        out_text = r.out.replace("\r\n", "\n")
+        blocks = {".": []}
         cur = "."
-        blocks[cur] = []
-        for line in r.out.split("\n"):
-            if line.startswith("Child History at ") and line.endswith(":"):
-                p = line[len("Child History at ") : -1]
-                cur = os.path.relpath(p, root)
+        parts = re.split(r"(?:^|(?<=\n))Child History at ", out_text)
+        for i2, seg in enumerate(parts):
+            if i2 > 0:
+                m2 = re.match(r"(.*?):\n(?=  Generation |\n|$)", seg, re.S)
+                if not m2:
+                    blocks["<unparsable heading>"] = []
+                    continue
+                cur = os.path.relpath(m2.group(1), root.replace("\r\n", "\n"))
                 if cur in blocks:
                     cs.violation("info-child-listed-twice", {"kind": "info-child-dup"}, {**ctx, "child": cur})
                 blocks[cur] = []
-            else:
-                m = GEN.match(line)
-                if m:
-                    blocks[cur].append((int(m.group(1)), m.group(2)))
-        want = {h: [(no, m["creatorinfo"]["creationdate"]) for no, name, m in model[h]] for h in hists}
+                seg = seg[m2.end() :]
+            blocks[cur] += [(int(m.group(1)), m.group(2)) for m in (GEN.match(line) for line in seg.split("\n")) if m]
+        want = {h.replace("\r\n", "\n"): [(no, m["creatorinfo"]["creationdate"]) for no, name, m in model[h]] for h in hists}
         if blocks != want:
             cs.violation(
                 "info-generations-differ",
